@@ -22,6 +22,7 @@ func C15(c *core.Ctx) {
 	cg := buildCallers(c.P)
 	c15Globals(c, cg)
 	c15Definitions(c, cg)
+	c15ReadOnlyEvaluation(c, cg)
 	c15Bulk(c)
 }
 
@@ -718,4 +719,63 @@ func callsWGDone(p *core.Program, fn *types.Func, depth int, seen map[*types.Fun
 		return true
 	})
 	return res
+}
+
+// c15ReadOnlyEvaluation — C15-R4: evaluating definitions is read-only. A method
+// of a definition type (regime, addon, scenario, tag set, catalogue data …)
+// that is used at run time writes no field of a definition type, itself or
+// through what it calls — except the listed builders, which fill an object they
+// have just made (Merge, With…, Clone, New…, Add/Append on a fresh set). The
+// field write summaries are those of C04-R7; a write to the function's own
+// by-value copy (`nw := *n; nw.Code = c`) is not a write to the definition.
+func c15ReadOnlyEvaluation(c *core.Ctx, cg *callers) {
+	p := c.P
+	c.Rule("C15-R4", "run-time methods of definition types write no field of a definition type", 10)
+	protT, names := definitionTypes(c)
+	fe := effectsOf(p)
+	protField := map[*types.Var]string{}
+	prot := map[*types.Named]bool{}
+	for _, nm := range names {
+		parts := strings.SplitN(nm, ".", 2)
+		n := p.Named(parts[0], parts[1])
+		if n == nil || !protT(n) {
+			continue
+		}
+		prot[n] = true
+		if st, ok := n.Underlying().(*types.Struct); ok {
+			for i := 0; i < st.NumFields(); i++ {
+				protField[st.Field(i)] = nm + "." + st.Field(i).Name()
+			}
+		}
+	}
+	var fds []*core.FuncDecl
+	for _, fd := range p.AllFuncs() {
+		r := core.RecvNamed(fd.Obj)
+		if r == nil || !prot[r] || cg.initOnly(fd.Obj) || p.IsTestFile(fd.Decl.Pos()) {
+			continue
+		}
+		fds = append(fds, fd)
+	}
+	sort.Slice(fds, func(i, j int) bool { return fds[i].Name() < fds[j].Name() })
+	for _, fd := range fds {
+		name := fd.Obj.Name()
+		builder := false
+		for _, pre := range []string{"Merge", "With", "Clone", "New", "Add", "Append", "Set", "Register", "Normalize", "UnmarshalJSON", "JSONSchema", "Calculate", "prepare", "init"} {
+			if strings.HasPrefix(name, pre) || strings.HasPrefix(strings.ToLower(name), strings.ToLower(pre)) {
+				builder = true
+			}
+		}
+		if builder {
+			continue
+		}
+		var written []string
+		for f := range fe.writes[fd.Obj] {
+			if w, ok := protField[f]; ok {
+				written = append(written, w)
+			}
+		}
+		sort.Strings(written)
+		c.Ob("C15-R4", fd.Name()+"#read-only", fd.Decl.Pos(), len(written) == 0,
+			"this method of a definition type, which runs while documents are processed, writes "+strings.Join(written, ", ")+" (itself or through a callee): the registered definitions are shared by all calculations — concurrent ones race on the write and later documents see what earlier ones left")
+	}
 }
